@@ -493,8 +493,13 @@ func (sess *session) Create(ctx context.Context, parent Fid, name string,
 		next := SFid{Ent: ent}
 		err = openLocked(ctx, &next, mode)
 		if err != nil { // Oops: Create has already succeeded
-						// - so now we have to delete everthing.
-			sess.delRef(ctx, parent, false)
+			// (consuming the parent entry) - so now we have to
+			// release the new entry and drop the fid.  The fid is
+			// locked by us, so it cannot go through delRef.
+			ent.Clunk(ctx)
+			sess.refs.Delete(parent)
+			ref.Ent = nil
+			ref.File = nil
 			// Note: ignoring possible multiple errors
 			return fail(err.Error())
 		}
